@@ -419,7 +419,16 @@ func (c *X2Config) check(w *World, pre, post *Dump, ev XEvent, preLen int, liste
 		vs = append(vs, monC04(f)...)
 	}
 	if c.Props["C08"] {
-		vs = append(vs, monC08(f, c.Cancel)...)
+		v8 := monC08(f, c.Cancel)
+		vs = append(vs, v8...)
+		if c.Props["C16"] && f.HasReload {
+			// monC08 judges a job by the definition it was accepted under; in a history with a reload a breach means the
+			// failure handling of a job followed another definition than its own
+			for _, v := range v8 {
+				vs = append(vs, Violation{Property: "C16", Rule: "snapshot-failure-handling", Norm: "failure-handling-not-from-accept-time-definition:" + v.Norm,
+					Msg: "in a history with a reload, a job's failure handling does not follow the definition it was accepted under: " + v.Msg})
+			}
+		}
 	}
 	if c.Props["C05"] {
 		vs = append(vs, monC05(f, pre, post, ev, w.Log[preLen:])...)
@@ -511,7 +520,14 @@ func (c *X2Config) checkDrained(w *World) []Violation {
 		vs = append(vs, monC06(f)...)
 	}
 	if c.Props["C08"] {
-		vs = append(vs, monC08(f, c.Cancel)...)
+		v8 := monC08(f, c.Cancel)
+		vs = append(vs, v8...)
+		if c.Props["C16"] && f.HasReload {
+			for _, v := range v8 {
+				vs = append(vs, Violation{Property: "C16", Rule: "snapshot-failure-handling", Norm: "failure-handling-not-from-accept-time-definition:" + v.Norm,
+					Msg: "in a history with a reload, a job's failure handling does not follow the definition it was accepted under: " + v.Msg})
+			}
+		}
 	}
 	return vs
 }
